@@ -859,6 +859,20 @@ func gamma_p_second_derivative_imp(a, x float64) float64 {
     }
   }
   t := gamma_p_derivative_imp(a, x)
+  if t < 0x1p-970 && x > 0.0 {
+    // the first derivative has underflowed (gradually or to 0) but its
+    // product with ((a-1) - x)/x need not: form it in logs
+    w := (a-1.0) - x
+    if w == 0.0 {
+      return 0.0
+    }
+    v, _ := math.Lgamma(a)
+    r := math.Exp((a-2.0)*math.Log(x) - x - v + math.Log(math.Abs(w)))
+    if w < 0.0 {
+      return -r
+    }
+    return r
+  }
   return (a-1.0)*t/x - t
 }
 
